@@ -530,18 +530,48 @@ BUNDLE_CONFIGS = [
     {"rules": [], "bundle": {"require_mode": "path"}},
     {"rules": ["remove_spaces", "remove_comments"], "bundle": {"require_mode": "path"}},
 ]
+BUNDLE_TOKEN_REWRITE_CONFIGS = [
+    {"rules": ["convert_luau_number"], "bundle": {"require_mode": "path"}},
+    {"rules": ["remove_spaces", "convert_luau_number"], "bundle": {"require_mode": "path"}},
+    {"rules": ["remove_spaces", "remove_comments", "convert_luau_number", "remove_compound_assignment"],
+     "bundle": {"require_mode": "path"}},
+]
 # the default rules as well, on the hand-written bodies only (generated bodies trip the recorded rule defects)
 BUNDLE_CONFIG_DEFAULT = {"bundle": {"require_mode": "path"}}
 
 
-def bundle_case(rng, i, n_modules, endings=None, simple=False):
+def spelled(v, how):
+    """a numeral of value v with digit separators (decimal, hexadecimal or binary spelling)"""
+    if how == 0:
+        d = str(v)
+        return d[:2] + "_" + d[2:]
+    if how == 1:
+        h = "%X" % v
+        return "0x" + h[:1] + "_" + h[1:]
+    b = bin(v)[2:]
+    return "0b" + b[:4] + "_" + b[4:]
+
+
+def numeric_body(letter, base, rng):
+    """statements whose FIRST token on a line is a numeral that convert_luau_number rewrites (numeric markers of value
+    base+1..): a token rewritten after bundling has materialised its position must still be written on its line"""
+    # decimal / hexadecimal spellings only: a binary numeral is replaced by a NEW token (recorded finding
+    # convert-luau-number-binary-literal, exercised by the single-file stream)
+    n = [spelled(base + k, rng.randrange(2)) for k in range(1, 6)]
+    return ("print(M%s1)\nlocal t = {\n    %s,\n    %s,\n}\nlocal x = M%s2 +\n  %s\n\nprint(x, t,\n  M%s3,\n%s)\n"
+            "t[\n%s\n] = nil" % (letter, n[0], n[1], letter, n[2], letter, n[3], n[4]))
+
+
+def bundle_case(rng, i, n_modules, endings=None, simple=False, numeric=False):
     """(entry source, {path: module source}, [ending name per module])"""
     files = {}
     names = []
     used = []
     for k in range(n_modules):
         letter = "abcd"[k]
-        if simple:
+        if numeric:
+            body = numeric_body(letter, 71000 + 1000 * k, rng)
+        elif simple:
             body = "print(M%s1)\nlocal x = M%s2\n\nprint(x,\n  M%s3)" % (letter, letter, letter)
         else:
             body, _, _, _ = G.program(rng, mode="random", markers=Markers(letter), density=2, avoid_known=True, module=True)
@@ -553,7 +583,9 @@ def bundle_case(rng, i, n_modules, endings=None, simple=False):
         files["src/m%s.lua" % letter] = body + ending[1] % ("M%s0" % letter)
         names.append("m" + letter)
     head = "".join("local %s = require('./%s')%s" % (n, n, "\n" if rng.randrange(3) else "\n\n") for n in names)
-    if simple:
+    if numeric:
+        tail = numeric_body("e", 75000, rng) + "\nreturn t,\n  Me4,\n  %s\n" % spelled(75009, rng.randrange(2))
+    elif simple:
         tail = "print(Me1)\nlocal y = Me2\n\nreturn y,\n  Me3\n"
     else:
         tail, _, _, _ = G.program(rng, mode="random", markers=Markers("e"), density=2, avoid_known=True)
@@ -877,6 +909,14 @@ def run_bundles(ctx, rng, quick):
     for i in range(14 if quick else 120):
         cases.append(bundle_case(rng, i, 2 + i % 3))
     jobs = []
+    # rules that rewrite the content of a token (convert_luau_number: numerals; remove_compound_assignment: operators)
+    # applied to the bundled tree, whose tokens no longer reference the source
+    for k in range(4 if quick else 24):
+        n = 1 + k % 3
+        endings = [["newline", "no-newline", "comment-line"][(k + j) % 3] for j in range(n)]
+        entry, files, used = bundle_case(rng, k, n, endings, numeric=True)
+        for c in BUNDLE_TOKEN_REWRITE_CONFIGS:
+            jobs.append((c, entry, files, used))
     for entry, files, used in cases:
         for c in BUNDLE_CONFIGS:
             jobs.append((c, entry, files, used))
